@@ -141,13 +141,21 @@ def build_callgraph(prog):
                 c = prog.resolve_class(mod, n.value.func)
                 if c is not None:
                     local_classes.setdefault(n.targets[0].id, []).append(c)
+        # local aliases of table receivers:  data_file = self._file
+        for n in walk_body(fi.node):
+            if isinstance(n, ast.Assign) and len(n.targets) == 1 and isinstance(n.targets[0], ast.Name):
+                d = dotted(n.value)
+                if d is not None and n.targets[0].id not in local_classes:
+                    cls_ = _receiver_classes(prog, fi, d, {})
+                    if cls_:
+                        local_classes[n.targets[0].id] = cls_
         for n in walk_body(fi.node):
             if isinstance(n, ast.Call):
                 total += 1
                 targets, kind = _resolve_call(prog, fi, n, local_classes)
                 if kind == "external":
                     external += 1
-                elif kind == "byname":
+                elif kind in ("byname", "byname-unique"):
                     byname += 1
                     if not targets:
                         cg.unresolved.append((fi.qual, n))
@@ -258,7 +266,9 @@ def _resolve_call(prog, fi, call, local_classes):
         # unknown receiver: union of same-named methods (may-edges)
         if name in EXTERNAL_METHODS:
             return [], "external"
-        cands = _methods_named(prog, name)
+        cands = [m for m in _methods_named(prog, name) if not m.is_static]
+        if len(cands) == 1:
+            return cands, "byname-unique"
         if cands:
             return cands, "byname"
         return [], "external"
